@@ -334,6 +334,32 @@ def m_move_pin_within_bus(r, b):
     return "last pin of %s.%s[%d] moved to bit %d of the same bus" % (c.definition.name, c.name, list(c.wires).index(w), list(c.wires).index(w2))
 
 
+def m_connect_floating_wire(r, b):
+    """a wire that joins nothing gets a pin that was open (an inner pin of the same definition or a pin of one of its instances)"""
+    cs = []
+    for d in defs_of(b):
+        free = [pin for pt in d.ports for pin in pt.pins if pin.wire is None]
+        free += [op for i in d.children for op in i.pins.values() if op.wire is None]
+        if free:
+            cs += [(c, w, free) for c in d.cables for w in c.wires if not len(w.pins)]
+    if not cs:
+        return None
+    c, w, free = r.choice(cs)
+    w.connect_pin(r.choice(free))
+    return "floating wire %s.%s[%d] connected to a pin that was open" % (c.definition.name, c.name, list(c.wires).index(w))
+
+
+def m_float_wire(r, b):
+    """every pin of one wire disconnected (the wire stays, joining nothing)"""
+    cs = [(c, w) for d in defs_of(b) for c in d.cables for w in c.wires if len(w.pins)]
+    if not cs:
+        return None
+    c, w = r.choice(cs)
+    for pin in list(w.pins):
+        w.disconnect_pin(pin)
+    return "all pins of %s.%s[%d] disconnected" % (c.definition.name, c.name, list(c.wires).index(w))
+
+
 def plant_wide(rng, n):
     """A port several hundred bits wide, connected on high bits - inside its definition and on an instance of it."""
     topd = n.top_instance.reference
@@ -534,7 +560,7 @@ def m_add_instance(r, b):
     return "instance added to %s" % h.name
 
 
-MUTATIONS = [m_move_pin_within_bus, m_port_direction, m_port_wider, m_port_narrower, m_port_arrayness, m_cable_wider, m_cable_narrower,
+MUTATIONS = [m_move_pin_within_bus, m_connect_floating_wire, m_float_wire, m_port_direction, m_port_wider, m_port_narrower, m_port_arrayness, m_cable_wider, m_cable_narrower,
              m_outer_other_instance, m_outer_other_port, m_outer_other_bit, m_inner_other_port, m_inner_other_bit,
              m_repoint, m_repoint_twin, m_property_value, m_property_value_type, m_property_added, m_property_dropped, m_property_field_dropped, m_property_field_added, m_property_appended, m_drop_library, m_add_library, m_drop_definition,
              m_add_definition, m_drop_port, m_add_port, m_drop_cable, m_add_cable, m_drop_instance, m_add_instance]
